@@ -42,7 +42,8 @@ Theorem C02_old_rule_breaks_inv :
 Proof. exact @Activation.old_rule_breaks_inv. Qed.
 Print Assumptions C02_old_rule_breaks_inv.
 
-(* Results never end before they start, and every match of a syntactically consuming expression consumes input. *)
+(* Results never end before they start, and every match of a syntactically consuming expression consumes input (a terminal is
+   consuming when term_strict holds: every rune, every literal parser except a user regular expression that can match the empty string). *)
 Theorem C02_consuming_progress :
   forall (inp : input) (rules : list pexpr) (site : N -> option pexpr) (K : list N),
   (forall (k : N) (body : pexpr), nth_N rules k = Some body -> wfe site K body) ->
